@@ -644,11 +644,38 @@ def empty_quantity(I, R, db):
 
 @register
 class CreateEmptySpec(FunctionSpec):
-    """Quantity.CreateEmpty(): the (process-wide) quantity without composing entries.  Summary only."""
+    """Quantity.CreateEmpty(): the (process-wide) quantity without composing entries: no entries, no
+    caption, and the identical object on every call (class-level cache, filled through ObtainQuantity)."""
 
     fq = Q_MOD + ":Quantity.CreateEmpty"
-    props = ("C09",)
-    summary_only = True
+    props = ("C09", "C07")
+    callees = (Q_MOD + ":ObtainQuantity",)
+
+    def variants(self, tier):
+        return ["cache-unset", "cache-set"]
+
+    def setup(self, I, variant):
+        from .values import std_db, harness
+
+        db, R = std_db(I)
+        P = I.P
+        cls = SClass(I.repo.cls(Q_MOD + ":Quantity"))
+        q0 = None
+        if variant == "cache-set":
+            q0 = empty_quantity(I, R, db)
+            P.ghost.setdefault("classattrs", {})[("Quantity", "_EMPTY_QUANTITY")] = q0
+        else:
+            P.ghost.setdefault("classattrs", {})[("Quantity", "_EMPTY_QUANTITY")] = SNone
+
+        def run(I):
+            a = I.call(I.getattr(cls, "CreateEmpty"), [])
+            b = I.call(I.getattr(cls, "CreateEmpty"), [])
+            return STuple([a, b])
+
+        return {"f": harness(run), "args": [], "R": R, "st": R.snapshot(), "db": db, "q0": q0}
+
+    def allowed_write(self, I, ctx, obj, what):
+        return True  # the class-level cache slot and the intern table (through ObtainQuantity's contract)
 
     def bind_call(self, I, f, args, kwargs):
         return {"$call": True}
@@ -662,4 +689,18 @@ class CreateEmptySpec(FunctionSpec):
                 g["empty_quantity"] = empty_quantity(I, R, db)
             return g["empty_quantity"]
 
-        return [ret("empty", T, mk)]
+        if ctx.get("$call"):
+            return [ret("empty", T, mk)]
+        q0 = ctx["q0"]
+
+        def chk(I, res):
+            a, b = res.items
+            if not all(isinstance(x, SRef) and isinstance(x.o, HObj) and getattr(x.o.cls, "name", "") == "Quantity" for x in (a, b)):
+                return F
+            ents = a.o.qinfo.get("entries") if getattr(a.o, "qinfo", None) else None
+            cap = a.o.fields.get("_unknown_unit_caption")
+            nocap = cap is SNone or (isinstance(cap, SStr) and cap.py == "")
+            same = a.o is b.o and (q0 is None or a.o is q0.o)
+            return z3.BoolVal(bool(same and ents is not None and len(ents) == 0 and nocap))
+
+        return [ret("the-one-empty-quantity", T, props=("C09", "C07"), check=chk)]
